@@ -46,6 +46,10 @@ NegLifeHi(cfg, q, negttl) ==
     LET b == BoundsFor(cfg, q.type) IN
     IF negttl < 0 THEN b.nmax ELSE ClampTo(negttl, b.nmin, b.nmax)
 
+\* the negative TTL of a response (RFC 2308 section 5): the minimum of the SOA record's TTL and
+\* the SOA MINIMUM field
+NegTtlFromSoa(soaTtl, soaMin) == Lo(soaTtl, soaMin)
+
 ElapsedSecs(at, now) == (now - at) \div TicksPerSec
 \* more than L seconds after insertion
 Late(at, now, life) == now - at > life * TicksPerSec
